@@ -19,6 +19,9 @@ def plan(tier, seed):
                env=dict(VERIF_SCHEMA=shape, VERIF_OP=op, VERIF_NPOS=npos))
         j["name"] += "[%s,%s,%d]" % (shape, op, npos)
         jobs.append(j)
+    jobs.append(ch("C20", F, "h_head_leaves_handle", t, ["api.ParquetFile.head", "api.ParquetFile.__getitem__"]))
+    jobs.append(dict(name="C20-lemma-no-module-buffers", kind="pyfunc", timeout=300,
+                     payload=dict(func="vf.pyshim.lemma_c20:no_module_buffers")))
     extra = dict(
         explanation="The real schema_tree / flatten / SchemaHelper.__init__ (what `pf[i]` runs on the schema elements it "
                     "shares with its parent) and the real SchemaHelper lookups are re-compiled from their source with "
